@@ -84,7 +84,7 @@ func runSolver(ctx context.Context, sd solverDef, file string, timeoutS int) (st
 
 // solve races the solvers on one obligation.
 func solveObligation(o *Obligation, dir string, timeoutS int, all bool) *SolveResult {
-	if o.Cover {
+	if o.Cover && !o.pruneQuery {
 		// vacuity checks only need "not unsat": a short limit, but every solver gets to answer
 		timeoutS = 2
 		all = true
